@@ -142,20 +142,24 @@ Definition adjust_holds (i : ainput) (o : list Z * list Z * list Z) : Prop :=
   podd = root /\
   (if a_static i then root = old \/ unprotected_existing i root else root = ctr).
 
+Definition set_code (i : ainput) (s : list Z) : Z :=
+  if negb (nodupb s) then 301
+  else if negb (forallb (fun c => memZ c (map cpu (a_procs i))) s) then 302
+  else if negb (forallb (fun c => negb (protected i c)) s) then 303
+  else if negb (lenZ s <=? target i) then 304
+  else 0.
+
 Definition adjust_code (i : ainput) (o : list Z * list Z * list Z) : Z :=
   let '(root, podd, ctr) := o in
   let old := to_set (a_old i) in
   let enough := target i <=? lenZ (free_cpus i) in
-  let must := enough || negb (eq_listZ ctr old) in
-  if must && negb (nodupb ctr) then 301
-  else if must && negb (forallb (fun c => memZ c (map cpu (a_procs i))) ctr) then 302
-  else if must && negb (forallb (fun c => negb (protected i c)) ctr) then 303
-  else if must && negb (lenZ ctr <=? target i) then 304
+  let c := set_code i ctr in
+  if (enough || negb (eq_listZ ctr old)) && negb (c =? 0) then c
   else if enough && negb (lenZ ctr =? target i) then 305
   else if negb (eq_listZ podd root) then 307
-  else if a_static i && negb (eq_listZ root old) && negb (unprotected_existingb i root) then 306
-  else if negb (a_static i) && negb (eq_listZ root ctr) then 307
-  else 0.
+  else if a_static i then
+    (if eq_listZ root old || unprotected_existingb i root then 0 else 306)
+  else if eq_listZ root ctr then 0 else 308.
 
 (* the only known way a protected cpu reaches BE: a later pod of another class lists a cpu of an
    LSE pod, which overwrites the LSE entry of cpuIdToPool *)
